@@ -1,14 +1,637 @@
 /-
-  Driver.C06 — line protocol front end for property C06 (stub: not built yet).
+  Driver.C06 — line protocol for record containers (`RecordTensor`, `RecordMatrix`), element
+  types Fp and Rat, one or two WengertLists.  Also carries the container part of C15 (cross-tape
+  pairings of every container binary operation, container `reset` / tape `clear` cycles).
+
+    @ tapes <n> fp|rat                                 new case                              → ok
+    vars <c> T|M <shape> <values> t=<tape>             RecordTensor/RecordMatrix::variables
+    consts <c> T|M <shape> <values>                    …::constants
+    addn|subn|muln|divn|subsw|divsw|pown <c> <a> <num> container ∘ number, number ∘ container
+    npow <c> <num> <a>
+    neg|sin|cos|exp|ln|sqrt <c> <a>
+    unary <c> <a> fn=cube|aff|odd
+    add|sub|emul|ediv|matmul <c> <a> <b>
+    binary <c> <a> <b> fn=axy|wsum|psq
+    uassign <a> fn=…                                   unary_assign / do_unary_assign
+    lassign <a> <b> fn=add|sub|mul|div|axy|wsum|psq    binary_left_assign  (overwrites a)
+    rassign <a> <b> fn=…                               binary_right_assign (overwrites b)
+    map <c> <a> fn=<recfn>                             map / map_with_index
+    mapmut <a> fn=<recfn>                              map_mut / map_mut_with_index
+    fromiter <c> <a> to=T|M shape=<shape> [order=rm|cm|rev] [fn=<recfn>] [chain=<b>] [take=<n>]
+    fromiters <c>,<d> <a> to=T|M shape=<shape> fn=<recfn>,<recfn>
+    reset <a>                                          reset / do_reset
+    clear t=<tape>                                     WengertList::clear
+    derivs <a> wrt=<b>,<c>                             derivatives / derivatives_for + at_tensor…
+
+  An operand is `name` (the owned container itself) or `name/<view>`: `ref` (borrowed),
+  `acc.<perm>` (`TensorAccess`, dimension `perm[k]` of the source becomes dimension `k`),
+  `tr.<perm>` (`TensorTranspose`), `rg.<start>+<len>.…` (`TensorRange` / `MatrixRange`),
+  `rev.<0|1>.…` (`TensorReverse` / `MatrixReverse`).  Assigning operations write through the view.
+  `<recfn>`: id | sq | aff | konst | lift.<tape> | half | alt | scale  (the last two use the
+  element's row-major position and exist for the `with_index` variants only).
+
+  Answers.  A container: `shape=<shape> const=<0|1> v=<numbers> scalar=ok ## idx=<positions>`
+  (`scalar=` is the harness's own comparison with the same computation on scalar `Record`s).
+  `derivs`: `d=<per output element, per input container: the derivatives> scalar=ok` or `none`.
+  A panic: `panic(<kind>)`.  `map`/`mapmut`/`fromiter`: `err(<what>)` for an `Err`.
+
+  Before `##`: what C06 speaks about, computed from the *specification* (scalar records,
+  Spec/RecordContainer.lean); the code-shaped container model's answer is compared with it on
+  every line (`MODEL-SPEC-DISAGREE` is a machinery error: the theorems of Props/C06 say they
+  coincide).  After `##`: the model's tape positions.
 -/
-import Driver.Parse
+import Driver.Prog
+import EasyMl.Spec.RecordContainer
 
 namespace Driver.C06
+open EasyMl Driver
 
-abbrev State := Unit
+/-! ### views -/
 
-def init : State := ()
+inductive ViewSpec where
+  | own
+  | ref
+  | acc (perm : List Nat)
+  | tr (perm : List Nat)
+  | rg (ranges : List (Nat × Nat))
+  | rev (flags : List Bool)
 
-def step (s : State) (_toks : List String) : State × String := (s, "unimplemented")
+def parseView (s : String) : Option ViewSpec :=
+  match s.splitOn "." with
+  | ["ref"] => some .ref
+  | "acc" :: ps => (ps.mapM String.toNat?).map .acc
+  | "tr" :: ps => (ps.mapM String.toNat?).map .tr
+  | "rg" :: rs =>
+    (rs.mapM fun (r : String) =>
+      match r.splitOn "+" with
+      | [a, b] =>
+        match a.toNat?, b.toNat? with
+        | some a, some b => some (a, b)
+        | _, _ => none
+      | _ => none).map .rg
+  | "rev" :: fs =>
+    (fs.mapM fun (f : String) => if f = "1" then some true else if f = "0" then some false else none).map .rev
+  | _ => none
+
+def parseOperand (tok : String) : Option (String × ViewSpec) :=
+  match tok.splitOn "/" with
+  | [n] => some (n, .own)
+  | [n, v] => (parseView v).map fun v => (n, v)
+  | _ => none
+
+/-- all indexes of a shape in row-major order (`ShapeIterator`) -/
+def allIndexes : List Nat → List (List Nat)
+  | [] => [[]]
+  | l :: ls => (List.range l).flatMap fun i => (allIndexes ls).map fun rest => i :: rest
+
+def dot (a b : List Nat) : Nat := (a.zip b).foldl (fun acc p => acc + p.1 * p.2) 0
+
+def isPerm (perm : List Nat) (d : Nat) : Bool :=
+  perm.length == d && (List.range d).all fun k => perm.contains k
+
+/-- the shape a view shows and, per view element in row-major order, the offset of the element
+    in the (row-major) owned container -/
+def viewOf (shape : Shape String) : ViewSpec → Option (Shape String × List Nat)
+  | .own | .ref => some (shape, List.range (elements shape))
+  | .acc perm =>
+    if !isPerm perm shape.length then none else
+    let strides := computeStrides shape
+    let vshape := perm.map fun p => shape.getD p ("", 0)
+    let pstrides := perm.map fun p => strides.getD p 0
+    some (vshape, (allIndexes (vshape.map (·.2))).map fun idx => dot idx pstrides)
+  | .tr perm =>
+    if !isPerm perm shape.length then none else
+    let strides := computeStrides shape
+    let lens := perm.map fun p => (shape.getD p ("", 0)).2
+    let vshape := (shape.zip lens).map fun (d, l) => (d.1, l)
+    let pstrides := perm.map fun p => strides.getD p 0
+    some (vshape, (allIndexes lens).map fun idx => dot idx pstrides)
+  | .rg ranges =>
+    if ranges.length != shape.length then none else
+    if !((shape.zip ranges).all fun (d, r) => r.2 ≥ 1 && r.1 + r.2 ≤ d.2) then none else
+    let strides := computeStrides shape
+    let vshape := (shape.zip ranges).map fun (d, r) => (d.1, r.2)
+    let base := dot (ranges.map (·.1)) strides
+    some (vshape, (allIndexes (vshape.map (·.2))).map fun idx => base + dot idx strides)
+  | .rev flags =>
+    if flags.length != shape.length then none else
+    let strides := computeStrides shape
+    let lens := shape.map (·.2)
+    some (shape, (allIndexes lens).map fun idx =>
+      dot (((idx.zip lens).zip flags).map fun ((i, l), f) => if f then l - 1 - i else i) strides)
+
+def writeBack {α : Type} (base : List α) (offsets : List Nat) (new : List α) : List α :=
+  (offsets.zip new).foldl (fun acc (o, x) => acc.set o x) base
+
+/-! ### state -/
+
+structure Entry (R : Type) where
+  isMatrix : Bool
+  /-- the code-shaped model's container (owned, row-major) -/
+  cont : Cont R
+  /-- the specification's scalar records, same order -/
+  recs : List (Rec R)
+  /-- a write through a view changed the tape of part of the container (misuse of
+      `from_existing`: the container's single `history` no longer describes its elements) -/
+  corrupt : Bool := false
+
+structure CState (R : Type) where
+  ntapes : Nat := 0
+  w : World R := World.empty
+  sw : World R := World.empty
+  env : List (String × Entry R) := []
+
+inductive State where
+  | none
+  | fp (s : CState Fp)
+  | rat (s : CState Rat)
+
+def init : State := .none
+
+section
+variable {R : Type} [Elem R] [NumOrd R] [NatCast R]
+
+def flag (ok : Bool) (s : String) : String := if ok then s else s ++ " MODEL-SPEC-DISAGREE"
+
+def histEq (a b : Option Nat) : Bool :=
+  match a, b with
+  | none, none => true
+  | some x, some y => x == y
+  | _, _ => false
+
+/-- does the container model agree with the scalar records of the specification -/
+def agree (c : Cont R) (recs : List (Rec R)) (histories : Bool := true) : Bool :=
+  c.elems.length == recs.length &&
+  (c.elems.zip recs).all fun (e, r) =>
+    e.1 == r.number && e.2 == r.index && (!histories || histEq c.history r.history)
+
+def showHist : Option Nat → String
+  | none => "none"
+  | some t => toString t
+
+def showObs (shape : Shape String) (recs : List (Rec R)) : String :=
+  let const := recs.all fun r => r.history.isNone
+  s!"shape={showShape shape} const={if const then 1 else 0} v={renderList (recs.map (·.number))}"
+
+def showAux (c : Cont R) : String := s!"idx={showNats c.indexes}"
+
+/-- the answer for a container: observable part from the specification's records -/
+def answer (c : Cont R) (recs : List (Rec R)) (ok : Bool := true) (histories : Bool := true) : String :=
+  flag (ok && agree c recs histories) (showObs c.shape recs ++ " scalar=ok") ++ " ## " ++ showAux c
+
+structure Operand (R : Type) where
+  name : String
+  entry : Entry R
+  spec : ViewSpec
+  vshape : Shape String
+  offsets : List Nat
+
+def Operand.cont (o : Operand R) : Cont R :=
+  ⟨o.vshape, o.offsets.filterMap fun k => o.entry.cont.elems[k]?, o.entry.cont.history⟩
+
+def Operand.recs (o : Operand R) : List (Rec R) := o.offsets.filterMap fun k => o.entry.recs[k]?
+
+def Operand.isOwn (o : Operand R) : Bool :=
+  match o.spec with
+  | .own => true
+  | _ => false
+
+def resolve (s : CState R) (tok : String) : Option (Operand R) :=
+  match parseOperand tok with
+  | none => none
+  | some (n, spec) =>
+    match s.env.lookup n with
+    | none => none
+    | some e =>
+      match viewOf e.cont.shape spec with
+      | none => none
+      | some (vs, offs) => some ⟨n, e, spec, vs, offs⟩
+
+def bind (s : CState R) (n : String) (e : Entry R) : CState R := { s with env := (n, e) :: s.env }
+
+/-- store the outcome of an assigning operation on `o`: through a view only the elements are
+    written (the owned container keeps its `history` field) -/
+def storeAssigned (s : CState R) (o : Operand R) (c' : Cont R) (recs' : List (Rec R)) : CState R × Entry R :=
+  let base := o.entry
+  let elems := writeBack base.cont.elems o.offsets c'.elems
+  let recs := writeBack base.recs o.offsets recs'
+  let e : Entry R :=
+    if o.isOwn then { base with cont := { base.cont with elems := elems, history := c'.history }, recs := recs }
+    else { base with cont := { base.cont with elems := elems }, recs := recs,
+                     corrupt := base.corrupt || !histEq base.cont.history c'.history }
+  (bind s o.name e, e)
+
+def answerEntry (e : Entry R) (ok : Bool := true) : String :=
+  answer e.cont e.recs ok (!e.corrupt)
+
+/-- do the positions of a new result start at the next unused position and run contiguously -/
+def contiguousFrom (c : Cont R) (lenBefore : Nat) : Bool :=
+  c.history.isNone || c.indexes == incrementingIndexes lenBefore c.elems.length
+
+def tapeLen (w : World R) : Option Nat → Nat
+  | some h => (w h).length
+  | none => 0
+
+/-! ### functions on records (`map`, `map_mut`, `from_iter`) -/
+
+/-- named functions `Record → Record` (the harness has the same table); `k` is the element's
+    row-major position -/
+def recFn (name : String) : Option (Nat → Rec R → World R → Rec R × World R) :=
+  match name.splitOn "." with
+  | ["id"] => some fun _ r w => (r, w)
+  | ["sq"] => some fun _ r w =>
+      match r.mul r w with
+      | .ok x => x
+      | .panic _ => (r, w)
+  | ["aff"] => some fun _ r w =>
+      let (m, w1) := r.mulNum two w
+      m.addNum 1 w1
+  | ["konst"] => some fun _ r w => (Rec.constant r.number, w)
+  | ["lift", t] => t.toNat?.map fun t => fun _ r w => Rec.mkVar r.number t w
+  | ["half"] => some fun _ r w => if NumOrd.lt r.number 0 then (Rec.constant r.number, w) else (r, w)
+  | ["alt"] => some fun k r w => if k % 2 == 0 then (r, w) else (Rec.constant r.number, w)
+  | ["scale"] => some fun k r w => r.mulNum ((k + 1 : Nat) : R) w
+  | _ => none
+
+/-- only the `with_index` variants hand the element's position to the function -/
+def withIndex (rest : List String) (f : Nat → Rec R → World R → Rec R × World R) :
+    Nat → Rec R → World R → Rec R × World R :=
+  if (optArg "via" rest) == some "with_index" then f else fun _ => f 0
+
+def showIterError : Cont.IterError → String
+  | .shape => "err(shape)"
+  | .empty => "err(empty)"
+  | .inconsistent f l => s!"err(inconsistent first={showHist f} later={showHist l})"
+
+/-- column-major order of a row-major list of a two dimensional shape -/
+def columnMajor {α : Type} (shape : Shape String) (l : List α) : List α :=
+  match shape with
+  | [(_, r), (_, c)] => (List.range c).flatMap fun j => (List.range r).filterMap fun i => l[i * c + j]?
+  | _ => l
+
+/-! ### steps -/
+
+def parseValues (s : String) : Option (List R) := (splitComma s).mapM Elem.parse
+
+def stepCreate (s : CState R) (isVar : Bool) (name kind shapeS valsS : String) (rest : List String) :
+    CState R × String :=
+  match parseShape shapeS, parseValues (R := R) valsS with
+  | some shape, some vals =>
+    let isMatrix := kind == "M"
+    if isVar then
+      let h := ((optArg "t" rest).bind String.toNat?).getD 0
+      let lenBefore := (s.w h).length
+      let (c, w') := Cont.variables h shape vals s.w
+      let (recs, sw') := variablesRecs h vals s.sw
+      let e : Entry R := { isMatrix := isMatrix, cont := c, recs := recs }
+      ({ bind s name e with w := w', sw := sw' }, answerEntry e (contiguousFrom c lenBefore))
+    else
+      let c := Cont.constants shape vals
+      let e : Entry R := { isMatrix := isMatrix, cont := c, recs := vals.map Rec.constant }
+      (bind s name e, answerEntry e)
+  | _, _ => (s, "bad-op")
+
+def parseUOp (op : String) (num : Option R) (rest : List String) : Option (UOp R) :=
+  match op, num with
+  | "addn", some k => some (.addN k)
+  | "subn", some k => some (.subN k)
+  | "muln", some k => some (.mulN k)
+  | "divn", some k => some (.divN k)
+  | "subsw", some k => some (.subSw k)
+  | "divsw", some k => some (.divSw k)
+  | "pown", some k => some (.powN k)
+  | "npow", some k => some (.nPow k)
+  | "neg", _ => some .neg
+  | "sin", _ => some .sin
+  | "cos", _ => some .cos
+  | "exp", _ => some .exp
+  | "ln", _ => some .ln
+  | "sqrt", _ => some .sqrt
+  | "unary", _ => ((optArg "fn" rest).bind (unaryFn (R := R))).map fun (f, df) => .fn f df
+  | _, _ => none
+
+def stepUnary (s : CState R) (name : String) (o : Operand R) (op : UOp R) : CState R × String :=
+  let c := o.cont
+  let lenBefore := tapeLen s.w c.history
+  let (c', w') := op.container c s.w
+  let (recs', sw') := Cont.mapRecs op.scalar o.recs s.sw
+  let e : Entry R := { isMatrix := o.entry.isMatrix, cont := c', recs := recs' }
+  ({ bind s name e with w := w', sw := sw' }, answerEntry e (contiguousFrom c' lenBefore))
+
+def bopFn (name : String) : Option (BOp R) :=
+  match name with
+  | "add" => some (.fn Fn.Addition.function Fn.Addition.dx Fn.Addition.dy)
+  | "sub" => some (.fn Fn.Subtraction.function Fn.Subtraction.dx Fn.Subtraction.dy)
+  | "mul" => some (.fn Fn.Multiplication.function Fn.Multiplication.dx Fn.Multiplication.dy)
+  | "div" => some (.fn Fn.Division.function Fn.Division.dx Fn.Division.dy)
+  | other => (binaryFn (R := R) other).map fun (f, dfx, dfy) => .fn f dfx dfy
+
+def parseBOp (op : String) (rest : List String) : Option (BOp R) :=
+  match op with
+  | "add" => some .add
+  | "sub" => some .sub
+  | "emul" => some .mul
+  | "ediv" => some .div
+  | "binary" => (optArg "fn" rest).bind (bopFn (R := R))
+  | _ => none
+
+def stepBinary (s : CState R) (name : String) (a b : Operand R) (op : BOp R) : CState R × String :=
+  let (ca, cb) := (a.cont, b.cont)
+  let lenBefore := tapeLen s.w (Cont.pickHistory ca.history cb.history)
+  match op.container ca cb s.w with
+  | .panic k => (s, s!"panic({k})")
+  | .ok (c', w') =>
+    match zipRecs op.scalar a.recs b.recs s.sw with
+    | .panic k => (s, s!"MODEL-SPEC-DISAGREE spec panic({k})")
+    | .ok (recs', sw') =>
+      let e : Entry R := { isMatrix := a.entry.isMatrix, cont := c', recs := recs' }
+      ({ bind s name e with w := w', sw := sw' }, answerEntry e (contiguousFrom c' lenBefore))
+
+def stepMatmul (s : CState R) (name : String) (a b : Operand R) : CState R × String :=
+  let (ca, cb) := (a.cont, b.cont)
+  let res := if a.entry.isMatrix then ca.matmulMatrix cb s.w else ca.matmulTensor cb s.w
+  match res with
+  | .panic k => (s, s!"panic({k})")
+  | .ok (c', w') =>
+    match Cont.dims2 ca.shape, Cont.dims2 cb.shape with
+    | some (l0, l1), some (_, r1) =>
+      match matmulRecs a.recs b.recs l0.2 l1.2 r1.2 s.sw with
+      | .panic k => (s, s!"MODEL-SPEC-DISAGREE spec panic({k})")
+      | .ok (recs', sw') =>
+        let e : Entry R := { isMatrix := a.entry.isMatrix, cont := c', recs := recs' }
+        ({ bind s name e with w := w', sw := sw' }, answerEntry e)
+    | _, _ => (s, "MODEL-SPEC-DISAGREE dims")
+
+def stepUAssign (s : CState R) (o : Operand R) (op : UOp R) : CState R × String :=
+  let c := o.cont
+  let (fx, dfx) := op.fns
+  let (c', w') := c.unaryAssign fx dfx s.w
+  let (recs', sw') := Cont.mapRecs op.scalar o.recs s.sw
+  let (s', e) := storeAssigned s o c' recs'
+  ({ s' with w := w', sw := sw' }, answerEntry e)
+
+/-- `left`: `a.binary_left_assign(b)` overwrites `a`; otherwise `a.binary_right_assign(b)`
+    overwrites `b`.  The specification is the allocating scalar computation in both cases. -/
+def stepBAssign (s : CState R) (left : Bool) (a b : Operand R) (op : BOp R) : CState R × String :=
+  let (ca, cb) := (a.cont, b.cont)
+  let (f, dfx, dfy) := op.fns
+  let res := if left then ca.binaryLeftAssign cb f dfx dfy s.w else ca.binaryRightAssign cb f dfx dfy s.w
+  match res with
+  | .panic k => (s, s!"panic({k})")
+  | .ok (c', w') =>
+    match zipRecs op.scalar a.recs b.recs s.sw with
+    | .panic k => (s, s!"MODEL-SPEC-DISAGREE spec panic({k})")
+    | .ok (recs', sw') =>
+      let (s', e) := storeAssigned s (if left then a else b) c' recs'
+      ({ s' with w := w', sw := sw' }, answerEntry e)
+
+def stepMap (s : CState R) (name : String) (o : Operand R)
+    (f : Nat → Rec R → World R → Rec R × World R) : CState R × String :=
+  let c := o.cont
+  let (w', res) := Cont.map o.entry.isMatrix c f s.w
+  let (recs', sw') := Cont.mapRecsIdx f 0 o.recs s.sw
+  let s := { s with w := w', sw := sw' }
+  match res with
+  | .panic k => (s, s!"panic({k})")
+  | .ok (.error (first, later)) => (s, s!"err(inconsistent first={showHist first} later={showHist later})")
+  | .ok (.ok c') =>
+    let e : Entry R := { isMatrix := o.entry.isMatrix, cont := c', recs := recs' }
+    (bind s name e, answerEntry e)
+
+def stepMapMut (s : CState R) (o : Operand R)
+    (f : Nat → Rec R → World R → Rec R × World R) : CState R × String :=
+  let c := o.cont
+  let (w', res) := Cont.mapMut c f s.w
+  match res with
+  | .panic k => ({ s with w := w' }, s!"panic({k})")
+  | .ok (c', err) =>
+    let (recs', sw') := Cont.mapRecsIdx f 0 o.recs s.sw
+    let (s', e) := storeAssigned { s with w := w', sw := sw' } o c' recs'
+    match err with
+    | none => (s', answerEntry e)
+    | some (first, later) =>
+      -- the container is left with mixed histories: only numbers and positions are compared
+      let e' := { e with corrupt := true }
+      (bind s' o.name e',
+       s!"err(inconsistent first={showHist first} later={showHist later}) " ++ answerEntry e')
+
+def orderRecs (order : String) (shape : Shape String) (recs : List (Rec R)) : List (Rec R) :=
+  match order with
+  | "cm" => columnMajor shape recs
+  | "rev" => recs.reverse
+  | _ => recs
+
+def fromIter (toMatrix : Bool) (shape : Shape String) (recs : List (Rec R)) : Except Cont.IterError (Cont R) :=
+  if toMatrix then
+    match shape with
+    | [(rn, r), (cn, c)] => Cont.fromIterMatrix rn cn r c recs
+    | _ => .error .shape
+  else Cont.fromIterTensor shape recs
+
+def stepFromIter (s : CState R) (name : String) (o : Operand R) (rest : List String) : CState R × String :=
+  let toMatrix := (optArg "to" rest) == some "M"
+  match (optArg "shape" rest).bind parseShape with
+  | none => (s, "bad-op")
+  | some shape =>
+    let order := (optArg "order" rest).getD "rm"
+    let f0 := ((optArg "fn" rest).bind (recFn (R := R))).getD fun _ r w => (r, w)
+    let f : Nat → Rec R → World R → Rec R × World R := fun _ => f0 0
+    let chained : Option (Operand R) := (optArg "chain" rest).bind (resolve s)
+    if (optArg "chain" rest).isSome && chained.isNone then (s, "bad-ref") else
+    let take := (optArg "take" rest).bind String.toNat?
+    let src (model : Bool) : List (Rec R) :=
+      let a := orderRecs order o.vshape (if model then o.cont.toRecs else o.recs)
+      let b := match chained with
+        | some b => if model then b.cont.toRecs else b.recs
+        | none => []
+      let all := a ++ b
+      match take with
+      | some n => all.take n
+      | none => all
+    let (mrecs, w') := Cont.mapRecsIdx f 0 (src true) s.w
+    let (srecs, sw') := Cont.mapRecsIdx f 0 (src false) s.sw
+    let s := { s with w := w', sw := sw' }
+    match fromIter toMatrix shape mrecs with
+    | .error e => (s, showIterError e)
+    | .ok c' =>
+      let e : Entry R := { isMatrix := toMatrix, cont := c', recs := srecs }
+      (bind s name e, "ok " ++ answerEntry e)
+
+def stepFromIters (s : CState R) (names : List String) (o : Operand R) (rest : List String) : CState R × String :=
+  let toMatrix := (optArg "to" rest) == some "M"
+  match (optArg "shape" rest).bind parseShape, ((optArg "fn" rest).map (·.splitOn ",")).bind (·.mapM (recFn (R := R))) with
+  | some shape, some [f1, f2] =>
+    match names with
+    | [n1, n2] =>
+      -- the array `[f1(x), f2(x)]` is built per element: the two functions' tape effects interleave
+      let both (recs : List (Rec R)) (w : World R) : List (Rec R) × List (Rec R) × World R :=
+        recs.foldl (fun (acc : List (Rec R) × List (Rec R) × World R) r =>
+          let (l1, l2, w) := acc
+          let (y1, w1) := f1 0 r w
+          let (y2, w2) := f2 0 r w1
+          (l1 ++ [y1], l2 ++ [y2], w2)) ([], [], w)
+      let (m1, m2, w') := both o.cont.toRecs s.w
+      let (s1, s2, sw') := both o.recs s.sw
+      let s := { s with w := w', sw := sw' }
+      let results := if toMatrix then
+          match shape with
+          | [(rn, r), (cn, c)] => Cont.fromItersMatrix rn cn r c [m1, m2]
+          | _ => [.error .shape, .error .shape]
+        else Cont.fromItersTensor shape [m1, m2]
+      let one (s : CState R) (n : String) (res : Except Cont.IterError (Cont R)) (srecs : List (Rec R)) :
+          CState R × String :=
+        match res with
+        | .error e => (s, showIterError e)
+        | .ok c' =>
+          let e : Entry R := { isMatrix := toMatrix, cont := c', recs := srecs }
+          (bind s n e, "ok " ++ answerEntry e)
+      match results with
+      | [r1, r2] =>
+        let (s, a1) := one s n1 r1 s1
+        let (s, a2) := one s n2 r2 s2
+        -- one answer line: both results, the auxiliary parts joined
+        let split (a : String) : String × String :=
+          match a.splitOn " ## " with
+          | [o, x] => (o, x)
+          | _ => (a, "")
+        let (o1, x1) := split a1
+        let (o2, x2) := split a2
+        (s, s!"{o1} | {o2} ## {x1} | {x2}")
+      | _ => (s, "bad-op")
+    | _ => (s, "bad-op")
+  | _, _ => (s, "bad-op")
+
+def stepReset (s : CState R) (o : Operand R) : CState R × String :=
+  let c := o.cont
+  let lenBefore := tapeLen s.w c.history
+  let (c', w') := c.reset s.w
+  let (recs', sw') := resetRecs o.recs s.sw
+  let (s', e) := storeAssigned s o c' recs'
+  ({ s' with w := w', sw := sw' }, answerEntry e (contiguousFrom c' lenBefore))
+
+def showDerivs (ds : List (List (List R))) : String :=
+  "|".intercalate (ds.map fun perOut => ";".intercalate (perOut.map renderList))
+
+def stepDerivs (s : CState R) (out : Operand R) (wrt : List (Operand R)) (via : String) : String :=
+  let c := out.cont
+  -- the code-shaped model
+  let model : Outcome (Option (List (List (List R)))) :=
+    let ds : Outcome (Option (List (List R))) :=
+      if via == "for" then
+        match Cont.collectOutcomes ((List.range c.elems.length).map fun k => c.derivativesFor k s.w) with
+        | .panic k => .panic k
+        | .ok l => .ok (l.mapM id)
+      else c.derivatives s.w
+    match ds with
+    | .panic k => .panic k
+    | .ok none => .ok none
+    | .ok (some ds) =>
+      match Cont.collectOutcomes (ds.map fun d =>
+        Cont.collectOutcomes (wrt.map fun i => Cont.derivativesAt d i.cont)) with
+      | .panic k => .panic k
+      | .ok l => .ok (some l)
+  -- the specification: scalar records
+  let spec : Outcome (Option (List (List (List R)))) :=
+    if out.recs.all fun r => r.history.isNone then .ok none else
+    match Cont.collectOutcomes (out.recs.map fun r => r.derivatives s.sw) with
+    | .panic k => .panic k
+    | .ok ds =>
+      match Cont.collectOutcomes (ds.map fun d =>
+        Cont.collectOutcomes (wrt.map fun i =>
+          Cont.collectOutcomes (i.recs.map fun x => derivativeAt d x))) with
+      | .panic k => .panic k
+      | .ok l => .ok (some l)
+  let same (a b : List (List (List R))) : Bool :=
+    a.length == b.length && (a.zip b).all fun (x, y) =>
+      x.length == y.length && (x.zip y).all fun (p, q) => beqList p q
+  match spec, model with
+  | .ok none, .ok none => "none"
+  | .ok (some a), .ok (some b) => flag (same a b) s!"d={showDerivs a} scalar=ok"
+  | .panic k, .panic k' => flag (k == k') s!"panic({k})"
+  | .panic k, _ => s!"panic({k}) MODEL-SPEC-DISAGREE"
+  | _, _ => "MODEL-SPEC-DISAGREE"
+
+def stepC (s : CState R) (toks : List String) : CState R × String :=
+  let get (tok : String) := resolve s tok
+  match toks with
+  | "vars" :: name :: kind :: shape :: vals :: rest => stepCreate s true name kind shape vals rest
+  | "consts" :: name :: kind :: shape :: vals :: rest => stepCreate s false name kind shape vals rest
+  | "clear" :: rest =>
+    match (optArg "t" rest).bind String.toNat? with
+    | some t => ({ s with w := s.w.clear t, sw := s.sw.clear t }, "ok")
+    | none => (s, "bad-op")
+  | "reset" :: a :: _ =>
+    match get a with
+    | some o => stepReset s o
+    | none => (s, "bad-ref")
+  | "derivs" :: a :: rest =>
+    match get a, ((optArg "wrt" rest).map splitComma).getD [] |>.mapM get with
+    | some o, some wrt => (s, stepDerivs s o wrt ((optArg "via" rest).getD "all"))
+    | _, _ => (s, "bad-ref")
+  | "uassign" :: a :: rest =>
+    match get a, parseUOp (R := R) "unary" none rest with
+    | some o, some op => stepUAssign s o op
+    | none, _ => (s, "bad-ref")
+    | _, none => (s, "bad-op")
+  | "lassign" :: a :: b :: rest | "rassign" :: a :: b :: rest =>
+    match get a, get b, (optArg "fn" rest).bind (bopFn (R := R)) with
+    | some a, some b, some op => stepBAssign s (toks.head? == some "lassign") a b op
+    | _, _, none => (s, "bad-op")
+    | _, _, _ => (s, "bad-ref")
+  | "map" :: name :: a :: rest =>
+    match get a, (optArg "fn" rest).bind (recFn (R := R)) with
+    | some o, some f => stepMap s name o (withIndex rest f)
+    | none, _ => (s, "bad-ref")
+    | _, none => (s, "bad-op")
+  | "mapmut" :: a :: rest =>
+    match get a, (optArg "fn" rest).bind (recFn (R := R)) with
+    | some o, some f => stepMapMut s o (withIndex rest f)
+    | none, _ => (s, "bad-ref")
+    | _, none => (s, "bad-op")
+  | "fromiter" :: name :: a :: rest =>
+    match get a with
+    | some o => stepFromIter s name o rest
+    | none => (s, "bad-ref")
+  | "fromiters" :: names :: a :: rest =>
+    match get a with
+    | some o => stepFromIters s (splitComma names) o rest
+    | none => (s, "bad-ref")
+  | "npow" :: name :: num :: a :: rest =>
+    match get a, parseUOp (R := R) "npow" (Elem.parse num) rest with
+    | some o, some op => stepUnary s name o op
+    | none, _ => (s, "bad-ref")
+    | _, none => (s, "bad-op")
+  | "matmul" :: name :: a :: b :: _ =>
+    match get a, get b with
+    | some a, some b => stepMatmul s name a b
+    | _, _ => (s, "bad-ref")
+  | op :: name :: a :: rest =>
+    if ["add", "sub", "emul", "ediv", "binary"].contains op then
+      match rest with
+      | b :: rest' =>
+        match get a, get b, parseBOp (R := R) op rest' with
+        | some a, some b, some bop => stepBinary s name a b bop
+        | _, _, none => (s, "bad-op")
+        | _, _, _ => (s, "bad-ref")
+      | [] => (s, "bad-op")
+    else
+      let num : Option R := rest.head?.bind Elem.parse
+      match get a, parseUOp (R := R) op num rest with
+      | some o, some uop => stepUnary s name o uop
+      | _, none => (s, "bad-op")
+      | none, _ => (s, "bad-ref")
+  | _ => (s, "bad-op")
+
+end
+
+def step (s : State) (toks : List String) : State × String :=
+  match toks with
+  | "@" :: "tapes" :: n :: "rat" :: _ => (.rat { ntapes := n.toNat?.getD 1 }, "ok")
+  | "@" :: "tapes" :: n :: _ => (.fp { ntapes := n.toNat?.getD 1 }, "ok")
+  | _ =>
+    match s with
+    | .none => (s, "bad-op")
+    | .fp p => let (p', a) := stepC p toks; (.fp p', a)
+    | .rat p => let (p', a) := stepC p toks; (.rat p', a)
 
 end Driver.C06
